@@ -45,9 +45,19 @@ func (c *C09Case) faultyRule() *dsl.Rule {
 	return &dsl.Rule{Name: faultyName, HasDesc: true, Desc: "f", HasSal: true, Sal: c.FaultSal, Body: b}
 }
 
+// workout is spliced into every healthy rule: after a contained fault the ordinary access
+// paths (map / slice / array element stores, field stores, locals, calls) must still work,
+// in the same call and in later calls.
+const workout = "  hm[\"k1\"] = 1\n  hm[\"k2\"] += 2\n  hsl[0] = 2\n  HW.N = 3\n  HW.M[\"k3\"] = 4\n  HW.Arr[1] = 5\n  hx = ok(1) + two(1, 2)\n  HO.Add(1)\n  hmi[2] = 5\n"
+
 func (c *C09Case) text() string {
 	var sb strings.Builder
-	for _, r := range c.Healthy {
+	for i, r := range c.Healthy {
+		if i == 0 {
+			// exactly one rule does the workout, so its containers are never written concurrently
+			sb.WriteString(strings.Replace(ruleText(r), "  E(@name)\n", workout+"  E(@name)\n", 1))
+			continue
+		}
 		sb.WriteString(ruleText(r))
 	}
 	t, _ := dsl.PrintRules([]*dsl.Rule{c.faultyRule()}, nil)
@@ -67,7 +77,19 @@ func c09Apis(env *schedEnv) map[string]interface{} {
 		m[k] = v
 	}
 	m["FX"] = func(n string) { env.log.Add("F", n, 0) }
+	// objects used only by the first healthy rule's workout
+	for k, v := range healthyObjects() {
+		m[k] = v
+	}
 	return m
+}
+
+// healthyObjects are the containers the workout writes to.
+func healthyObjects() map[string]interface{} {
+	return map[string]interface{}{
+		"hm": map[string]int64{"k2": 1}, "hsl": []int64{0, 0}, "hmi": map[int64]int64{},
+		"HW": &StmtHost{M: map[string]int64{}}, "HO": &FObj{},
+	}
 }
 
 // genCallFor draws arguments for a method so that the faulty rule is usually scheduled.
@@ -235,7 +257,7 @@ func checkC09(ci interface{}, x *Ctx) {
 	}
 	// 3. the pool can still serve max simultaneous requests
 	env.log.Reset()
-	probeAll(x, tg, int(c.PoolMax), c.Healthy[0].Name, "after fault "+sigBase)
+	probeAll(x, tg, int(c.PoolMax), c.Healthy[1].Name, "after fault "+sigBase)
 }
 
 // probeAll starts max requests that all park inside rule `name`, which forces one request
